@@ -5,6 +5,7 @@ import (
 	"encoding/json"
 	"errors"
 	"fmt"
+	"github.com/glebziz/fs_db/internal/model"
 	"hash/fnv"
 	"io"
 	"os"
@@ -71,6 +72,7 @@ type seqRun struct {
 	readers      map[int]*heldReader
 	writers      map[int]*heldWriter
 	droppedFiles map[string]bool // files that existed when a root was last taken out of the configuration
+	quiet        map[int]bool    // transactions begun and not used yet, which the read-backs leave alone
 }
 
 // heldWriter is a file obtained from Create whose remaining Writes and Close happen only after other
@@ -126,6 +128,9 @@ func (s *seqRun) readBack(after Op, stepNo int) {
 		ids = append(ids, s.m.OpenTxs()...)
 	}
 	for _, id := range ids {
+		if s.quiet[id] {
+			continue
+		}
 		st, _ := s.a.store(id)
 		for _, k := range s.c.Keys {
 			if k == "" {
@@ -167,6 +172,11 @@ func (s *seqRun) step(i int, o Op) bool {
 	case "gctimer":
 		s.w.GCTimer()
 		s.probes["gc-timer"]++
+	case "beginbad":
+		s.a.apply(s.w.Ctx, o)
+		s.probes["begin-with-an-unknown-isolation-level"]++
+	case "records":
+		s.recordsStep(i, o)
 	case "seqjump":
 		// a burst of sequence numbers drawn by somebody else (the counter is shared by every database
 		// of the process): nothing any reader sees may depend on how far the counter has moved
@@ -339,6 +349,15 @@ func (s *seqRun) step(i int, o Op) bool {
 			}
 		}
 		mkdirErrs, readDirErrs := s.w.Disk.Stats.MkdirErrs, s.w.Disk.Stats.ReadDirErrs
+		if o.K == "begin" && o.Quiet {
+			if s.quiet == nil {
+				s.quiet = map[int]bool{}
+			}
+			s.quiet[o.tx()] = true
+			s.probes["transaction-left-alone-until-its-first-statement"]++
+		} else if o.tx() >= 0 {
+			delete(s.quiet, o.tx())
+		}
 		r := s.a.apply(s.w.Ctx, o)
 		an := actorName(s.m, o.tx())
 		mkdirFailed := s.w.Disk.Stats.MkdirErrs > mkdirErrs
@@ -360,7 +379,7 @@ func (s *seqRun) step(i int, o Op) bool {
 				s.fail("error-class", fmt.Sprintf("source-error-swallowed,op=%s,actor=%s", o.K, an), fmt.Sprintf("step %d (%s by %s): the source reader failed at offset %d of %d, the write returned nil", i, o, an, int((o.ID*7919)%uint64(o.Size+1)), o.Size))
 				return false
 			}
-			if s.c.Client != "simgrpc" && s.c.Client != "grpcreal" && o.Key != "" && an != "ended" && an != "unknown" && o.Ctx != "dead" && !s.faultAt(i) && !mkdirFailed && !s.tightDisk() && !errors.Is(r.Err, errSource) {
+			if s.c.Client != "simgrpc" && s.c.Client != "grpcreal" && o.Key != "" && an != "ended" && an != "unknown" && o.Ctx != "dead" && !s.faultAt(i) && !mkdirFailed && !readDirFailed && !s.tightDisk() && !errors.Is(r.Err, errSource) {
 				s.fail("error-class", fmt.Sprintf("wrong-class,op=%s,actor=%s", o.K, an), fmt.Sprintf("step %d (%s by %s): the source reader failed; the write returned %v, which does not wrap the reader's error", i, o, an, r.Err))
 				return false
 			}
@@ -712,3 +731,120 @@ func (s *seqRun) finalWalk() {
 }
 
 var _ = bytes.Equal
+
+// recordsStep (C19): N version records with field values of every kind - transaction and content
+// ids that are any canonical UUID (not only the version-4 ones the generator produces: the nil id,
+// ids with leading or trailing zero bytes, all ones, time-based ones), any 64-bit sequence, keys
+// of any bytes and length - are stored through the real file repository and read back with its
+// scan; each must come back exactly as stored.
+func (s *seqRun) recordsStep(i int, o Op) {
+	repo := s.w.C.FileRepo()
+	r := simrt.NewRand(o.ID).Derive("records")
+	uuidOf := func(kind int) string {
+		var b [16]byte
+		for k := range b {
+			b[k] = byte(r.Intn(256))
+		}
+		switch kind {
+		case 0: // nil id
+			b = [16]byte{}
+		case 1: // a single non-zero byte somewhere
+			b = [16]byte{}
+			b[r.Intn(16)] = byte(1 + r.Intn(255))
+		case 2: // eight leading zero bytes
+			for k := 0; k < 8; k++ {
+				b[k] = 0
+			}
+		case 3: // eight trailing zero bytes
+			for k := 8; k < 16; k++ {
+				b[k] = 0
+			}
+		case 4:
+			for k := range b {
+				b[k] = 0xff
+			}
+		case 5: // time-based layout (version 1)
+			b[6] = (b[6] & 0x0f) | 0x10
+			b[8] = (b[8] & 0x3f) | 0x80
+		case 6: // version 4, as the generator makes them
+			b[6] = (b[6] & 0x0f) | 0x40
+			b[8] = (b[8] & 0x3f) | 0x80
+		}
+		return fmt.Sprintf("%x-%x-%x-%x-%x", b[0:4], b[4:6], b[6:8], b[8:10], b[10:16])
+	}
+	seqs := []uint64{0, 1, 255, 256, 1<<32 - 1, 1 << 32, 1<<56 - 1, 1 << 56, 1<<63 - 1, 1 << 63, 1<<64 - 1}
+	want := map[string]model.File{}
+	for k := 0; k < o.N; k++ {
+		f := model.File{TxId: uuidOf(r.Intn(8)), ContentId: uuidOf(1 + r.Intn(7))}
+		if _, dup := want[f.ContentId]; dup || f.ContentId == model.MainTxId {
+			continue
+		}
+		if r.Intn(2) == 0 {
+			f.Seq = sequence.Seq(seqs[r.Intn(len(seqs))])
+		} else {
+			f.Seq = sequence.Seq(r.Uint64())
+		}
+		kb := make([]byte, []int{0, 1, 2, 16, 40, 41, 300, 70000}[r.Pick(2, 3, 3, 3, 2, 2, 2, 1)])
+		for j := range kb {
+			kb[j] = byte(r.Intn(256))
+		}
+		f.Key = string(kb)
+		switch r.Intn(12) {
+		case 0: // a key that is, byte for byte, the raw form of this record's transaction id
+			f.Key = string(rawUUID(f.TxId))
+		case 1: // ... or its text form, or sixteen zero bytes (the raw form of the main id)
+			f.Key = f.TxId
+		case 2:
+			f.Key = string(make([]byte, 16))
+		case 3: // ... or the raw form of an id stored earlier
+			for _, w := range want {
+				f.Key = string(rawUUID(w.TxId))
+				break
+			}
+		}
+		if err := repo.Set(s.w.Ctx, f); err != nil {
+			s.fail("error-class", "record-set", fmt.Sprintf("step %d: storing the version record %s failed: %v", i, describeRecord(f), err))
+			return
+		}
+		want[f.ContentId] = f
+	}
+	got, err := repo.GetAll(s.w.Ctx)
+	if err != nil {
+		s.fail("error-class", "record-scan", fmt.Sprintf("step %d: the scan over %d stored version records failed: %v", i, len(want), err))
+		return
+	}
+	seen := 0
+	for _, g := range got {
+		w, ok := want[g.ContentId]
+		if !ok {
+			continue // records of the history itself
+		}
+		seen++
+		if g.TxId != w.TxId || g.Seq != w.Seq || g.Key != w.Key {
+			s.fail("value", "record-round-trip", fmt.Sprintf("step %d: stored %s, the scan returned %s", i, describeRecord(w), describeRecord(g)))
+			return
+		}
+	}
+	if seen != len(want) {
+		s.fail("value", "record-lost", fmt.Sprintf("step %d: %d version records stored, the scan returned %d of them", i, len(want), seen))
+		return
+	}
+	s.probes["version-records-round-tripped"] += uint64(seen)
+}
+
+func describeRecord(f model.File) string {
+	k := f.Key
+	if len(k) > 24 {
+		k = k[:24] + fmt.Sprintf("...(%d bytes)", len(f.Key))
+	}
+	return fmt.Sprintf("{tx %s content %s seq %d key %q}", f.TxId, f.ContentId, uint64(f.Seq), k)
+}
+
+func rawUUID(s string) []byte {
+	h := strings.ReplaceAll(s, "-", "")
+	b := make([]byte, len(h)/2)
+	for i := range b {
+		fmt.Sscanf(h[2*i:2*i+2], "%02x", &b[i])
+	}
+	return b
+}
